@@ -258,3 +258,41 @@ def list_json(items):
     import json
 
     return json.dumps({k: expected_sequence(form) for k, form in items}, separators=(",", ":"))
+
+
+PLAIN_DIALECT = {
+    "gff3": {"leading semicolon": False, "trailing semicolon": False, "quoted GFF2 values": False, "field separator": ";",
+             "keyval separator": "=", "multival separator": ",", "fmt": "gff3", "repeated keys": False},
+    "gtf": {"leading semicolon": False, "trailing semicolon": True, "quoted GFF2 values": True, "field separator": "; ",
+            "keyval separator": " ", "multival separator": ",", "fmt": "gtf", "repeated keys": False},
+}
+
+
+def read_attributes(text, fmt):
+    """Reference reader of an attribute column written in the plain form of the format (see render_line):
+    [[key, [values]]], or None when the text is not of that form."""
+    from urllib.parse import unquote
+
+    out = []
+    if text == "":
+        return out
+    if fmt == "gtf":
+        if not text.endswith(";"):
+            return None
+        for part in text[:-1].split("; "):
+            m = re.match(r'([^ "]+) "([^"]*)"\Z', part)
+            if not m:
+                return None
+            out.append([m.group(1), m.group(2).split(",") if m.group(2) != "" else []])
+        return out
+    for part in text.split(";"):
+        if part == "":
+            return None
+        if "=" not in part:
+            out.append([unquote(part), []])
+            continue
+        k, v = part.split("=", 1)
+        if "=" in v or v == "":
+            return None
+        out.append([unquote(k), [unquote(x) for x in v.split(",")]])
+    return out
